@@ -8,7 +8,8 @@ tag = ([a.split('=', 1)[1] for a in sys.argv[1:] if a.startswith('--tag=')] or [
 pid = args[0]; checks = args[1:] or [pid]
 wt = '/tmp/wt/%s' % pid; seed = os.path.join(wt, 'seed'); dst = '/verif/seeded/%s%s' % (pid, ('_' + tag) if tag else '')
 os.makedirs(dst, exist_ok=True)
-for f in os.listdir(seed):
+rerun = not os.path.isdir(seed)      # the worktree is gone: re-run the checks on the stored patch, keep the stored demonstration
+for f in (os.listdir(seed) if not rerun else []):
     if os.path.isfile(os.path.join(seed, f)) and os.path.getsize(os.path.join(seed, f)) < 2_000_000 and not f.endswith(('.o',)) and f not in ('demo',):
         shutil.copy(os.path.join(seed, f), dst)
 # confirm the demonstration in the scratch worktree (the change is still applied there)
@@ -30,6 +31,7 @@ patch = os.path.join(dst, 'patch.diff')
 st = subprocess.run(['git', '-C', '/repo', 'status', '--porcelain'], capture_output=True, text=True).stdout.strip()
 assert st == '', '/repo not clean: ' + st
 res = {'property': pid, 'demonstration': confirm[-1500:], 'checks': {}}
+if rerun and os.path.exists(os.path.join(dst, 'result.json')): res['demonstration'] = json.load(open(os.path.join(dst, 'result.json'))).get('demonstration', '')
 a = subprocess.run(['git', '-C', '/repo', 'apply', patch], capture_output=True, text=True)
 if a.returncode != 0:
     res['apply'] = 'patch does not apply: ' + a.stderr[-300:]
